@@ -2552,7 +2552,7 @@ template< size_t L> inline
 {
    if (pos1 > mLength)
       return (pos2 >= len2) ? 0 : 1;
-   if (pos2 >= len2)
+   if (pos2 > len2)
       return (pos1 == mLength) ? 0 : -1;
 
    const size_t  str_len1 = (count1 > mLength - pos1) ? (mLength - pos1) : count1;
